@@ -876,7 +876,7 @@ func (e *Engine) VerifyFunction(fc *FuncContract) *FuncResult {
 		}
 		if ax := x.pureAxiom(pfc); ax != "" {
 			x.axiomTerms = append(x.axiomTerms, ax)
-			x.axiomNames = append(x.axiomNames, "postconditions of pure function "+pkgShort(pfc.PkgPath)+"."+pfc.Key+" (proved as its own obligations)")
+			x.axiomNames = append(x.axiomNames, "postconditions of pure function "+pkgShort(pfc.PkgPath)+"."+pfc.Key+map[bool]string{false: " (proved as its own obligations)", true: " (TRUSTED: its body is not verified)"}[pfc.Trusted])
 		}
 	}
 	for _, ln := range fc.Uses {
@@ -999,7 +999,18 @@ func (e *Engine) VerifyFunction(fc *FuncContract) *FuncResult {
 	sort.Strings(res.Notes)
 	res.Assumed = append(res.Assumed, x.axiomNames...)
 	for _, k := range sortedKeys(x.assumedObjInv) {
+		if strings.Contains(k, " applied at a call") {
+			res.Assumed = append(res.Assumed, k)
+			continue
+		}
 		res.Assumed = append(res.Assumed, "object invariant "+k+" assumed at calls from outside its package")
+	}
+	for _, r := range fc.Requires {
+		kind := "precondition"
+		if r.ObjInv {
+			kind = "object invariant"
+		}
+		res.Assumed = append(res.Assumed, kind+" of "+key+" assumed at its entry (proved at its call sites inside functions under contract; an assumption about every other caller): "+r.Label+": "+r.Src)
 	}
 	return res
 }
